@@ -350,6 +350,32 @@ func main() {
 					}
 				case *ast.ReturnStmt:
 					// swap `return x, nil` error to keep arity? skipped
+				case *ast.BlockStmt:
+					// two adjacent simple statements exchanged; a simple statement executed twice
+					simple := func(st ast.Stmt) bool {
+						switch y := st.(type) {
+						case *ast.ExprStmt:
+							_, isCall := y.X.(*ast.CallExpr)
+							return isCall
+						case *ast.AssignStmt:
+							return true
+						case *ast.IncDecStmt:
+							return true
+						}
+						return false
+					}
+					for i, st := range x.List {
+						if !simple(st) {
+							continue
+						}
+						if as, isAs := st.(*ast.AssignStmt); !isAs || (as.Tok != token.DEFINE && as.Tok != token.ASSIGN) {
+							emit("stmt-dup", st.Pos(), st.End(), text(st)+"\n"+text(st))
+						}
+						if i+1 < len(x.List) && simple(x.List[i+1]) {
+							nx := x.List[i+1]
+							emit("stmt-swap", st.Pos(), nx.End(), text(nx)+"\n"+text(st))
+						}
+					}
 				}
 				return true
 			})
